@@ -166,7 +166,7 @@ package bbolt
 //@   ensures [copy] tx.meta.pgid == dbmeta(db).pgid && tx.meta.freelist == dbmeta(db).freelist && tx.meta.root.root == dbmeta(db).root.root && tx.meta.root.sequence == dbmeta(db).root.sequence && tx.meta.pageSize == dbmeta(db).pageSize
 //@   ensures [pages] tx.writable ==> tx.pages != nil && len(tx.pages) == 0
 //@   ensures [format] tx.meta.magic == dbmeta(db).magic && tx.meta.version == dbmeta(db).version
-//@   ensures [shared] db.meta0.txid == old(db.meta0.txid) && db.meta1.txid == old(db.meta1.txid) && tx.writable == old(tx.writable)
+//@   ensures [shared] db.meta0.txid == old(db.meta0.txid) && db.meta1.txid == old(db.meta1.txid) && tx.writable == old(tx.writable) && dbmeta(db) == old(dbmeta(db)) && db.meta0 == old(db.meta0) && db.meta1 == old(db.meta1) && metavalid(db.meta0) == old(metavalid(db.meta0)) && metavalid(db.meta1) == old(metavalid(db.meta1))
 
 //@ func (*Tx).close
 //@   props C03 C08 C10
@@ -326,7 +326,7 @@ package bbolt
 //@ func (*DB).beginTx
 //@   returns (t, err)
 //@   props C02 C03 C10
-//@   requires !db.metalock.held
+//@   requires !db.metalock.held && db.mmaplock.rcount >= 0
 //@   requires db.opened && db.data != nil ==> db.meta0 != nil && db.meta1 != nil && (metavalid(db.meta0) || metavalid(db.meta1)) && dbmeta(db).txid < 18446744073709551615
 //@   ensures [metalock] !db.metalock.held
 //@   ensures [rlock] err == nil ==> db.mmaplock.rcount == old(db.mmaplock.rcount) + 1
